@@ -29,11 +29,12 @@ impl Naive {
     }
 }
 
-// term=<halt:s,c|spinout|limit>@n;erase=<n|->;blank=<n|->
+// term=<halt:s,c|spinout|limit>@n;erase=<n|->;blank=<n|-> (blank: first step after which the tape is all blank)
 pub fn naive_run(prog: &str, lim: u64) -> String {
     let comp = CompProg::from_str(prog);
     let mut m = Naive::new();
     let mut erase: Option<u64> = None;
+    let mut blank: Option<u64> = None;
     let mut nonzero: i64 = 0;
     let mut term = String::from("limit");
     let mut n: u64 = 0;
@@ -69,12 +70,16 @@ pub fn naive_run(prog: &str, lim: u64) -> String {
         if erase.is_none() && scan != 0 && pr == 0 && nonzero == 0 {
             erase = Some(n);
         }
+        if blank.is_none() && nonzero == 0 {
+            blank = Some(n);
+        }
     }
     format!(
-        "term={}@{};erase={}",
+        "term={}@{};erase={};blank={}",
         term,
         n,
-        erase.map_or("-".to_string(), |e| e.to_string())
+        erase.map_or("-".to_string(), |e| e.to_string()),
+        blank.map_or("-".to_string(), |e| e.to_string())
     )
 }
 
